@@ -6,7 +6,7 @@ from ref import choice as RC, jsonpath as JP
 PROP = "C14"
 TS = ["2030-03-17T17:46:40Z", "2030-03-17T23:16:40+05:30", "2030-03-17T14:01:41-03:45"]   # first two are the same instant
 MISSING = "__missing__"
-VALUES = [MISSING, None, 0, 1, 1.5, 0.0, 1.0, True, False, "", "a", "A", "a*c", "abc", "a?c", "a\\c", "a]c", TS[0], TS[1], TS[2], [], {}]
+VALUES = [MISSING, None, 0, 1, 1.5, 0.0, 1.0, True, False, "", "a", "A", "a*c", "abc", "a?c", "a\\c", "a]c", "hello world", "2030-03-17", TS[0], TS[1], TS[2], [], {}]
 PATTERNS = ["a*c", "a?c", "a\\*c", "*", "", "a[bc]c", "a.c", "ab*", "*c", "a\\\\c", "a]c"]
 
 def base_cases(tier):
